@@ -16,7 +16,8 @@ CFGS = [
     dict(quitonerror=0, validate=1),
     dict(quitonerror=1, handler=True, validate=1),
     dict(quitonerror=0, validate=0),
-    dict(quitonerror=1, handler=True, validate=0, msgmode=1),
+    dict(quitonerror=0, validate=1, protfilter=2),
+    dict(quitonerror=1, handler=True, validate=0, msgmode=1, protfilter=5),
 ]
 ALPHABET = streams.FRAME_TOKENS + streams.NOISE_TOKENS + streams.FRAG_TOKENS
 # depth 4 (thorough) uses one representative per behaviour class
@@ -92,12 +93,14 @@ def replay_case(case):
 def clean_ends_of(seq, cfg):
     """Frame end offsets if every token is a frame its parser accepts, else None."""
     table = vt(cfg)
+    mask = cfg.get("protfilter", 7)
     ends, pos = [], 0
     for t in seq:
         if TOKENS[t][1] != "frame" or table[t][0] != "ok":
             return None
         pos += len(TOKENS[t][2])
-        ends.append(pos)
+        if TOKENS[t][0] & mask:  # frames of a filtered-out protocol are framed but not delivered
+            ends.append(pos)
     return ends
 
 
